@@ -64,10 +64,14 @@ Mutating(ev) ==
                 \cup (IF ev.op = "add" /\ ~C12_EvictOnlyStaleHead(s, Ent(ev.n, s.now), o) THEN {"C12_EvictOnlyStaleHead"} ELSE {})
                 \cup (IF ev.op = "add" /\ ~C14_RefreshOnReAdd(s, Ent(ev.n, s.now), o) THEN {"C14_RefreshOnReAdd"} ELSE {})
       conforms == Norm(o) = Norm(m.st) /\ (ev.op # "add" \/ ev.ret = m.ret)
-  IN /\ IF failed # {} THEN Report(failed, [op |-> ev.op]) /\ mode' = "skip"
-        ELSE IF ~conforms THEN PrintT(<<"DRIFT", ToJson([line |-> l, b |-> beh, op |-> ev.op])>>) /\ mode' = "skip"
+  \* after a drift the model continues from the OBSERVED table (resynchronised): the formulas that are read off the observations
+  \* keep being evaluated for the rest of the behaviour, and so does the conformance of every later step
+  \* ... and after a violation too, as long as the observed table is well-formed (the other formulas of the family - what
+  \* closest() answers from such a table, say - are still judged on the rest of the behaviour)
+  IN /\ IF failed # {} THEN Report(failed, [op |-> ev.op]) /\ mode' = (IF Structure(o) = {} THEN "ok" ELSE "skip")
+        ELSE IF ~conforms THEN PrintT(<<"DRIFT", ToJson([line |-> l, b |-> beh, op |-> ev.op])>>) /\ mode' = "ok"
         ELSE mode' = "ok"
-     /\ s' = m.st
+     /\ s' = IF (failed = {} /\ ~conforms) \/ (failed # {} /\ Structure(o) = {}) THEN o ELSE m.st
 
 \* closest(): answer as node indices
 Closest(ev) ==
